@@ -46,7 +46,7 @@ func c16hm(s *Sink, a, b [2]int, class string) {
 }
 
 var c16locs = []*time.Location{time.UTC, time.FixedZone("+0545", 5*3600+45*60), time.FixedZone("-0930", -(9*3600 + 30*60)), time.FixedZone("+14", 14*3600)}
-var c16n, c16d int
+var c16n, c16d, c16segCount int
 
 func c16dt(s *Sink, d, t int64, class string) {
 	// the same two instants expressed in rotating Locations: the verdict is about instants, not wall clocks
@@ -62,6 +62,29 @@ func c16dt(s *Sink, d, t int64, class string) {
 	s.Add(fmt.Sprintf("CDT %s %s %v", zz(d), zz(t), bf), map[string]any{"op": "datetime", "d": d, "t": t, "before": bf}, class, d != t)
 }
 
+// the same segment in positions 2 and 3, beside an unused, a whole-day, an ordinary and a degenerate neighbour: it is accepted
+// exactly when it is accepted alone (every neighbour used here is itself acceptable)
+func c16segNeighbours(s *Sink, a, b [2]int, alone bool) {
+	id := uint32(405419896)
+	x := types.Segment{Start: types.NewHHmm(a[0], a[1]), End: types.NewHHmm(b[0], b[1])}
+	neighbours := []types.Segment{{}, {Start: types.NewHHmm(0, 0), End: types.NewHHmm(24, 0)}, {Start: types.NewHHmm(8, 30), End: types.NewHHmm(17, 0)}, {Start: types.NewHHmm(24, 0), End: types.NewHHmm(24, 0)}, {Start: types.NewHHmm(12, 0), End: types.NewHHmm(12, 0)}}
+	for pos := 1; pos <= 3; pos++ {
+		for ni, nb := range neighbours {
+			segs := types.Segments{1: nb, 2: nb, 3: nb}
+			segs[uint8(pos)] = x
+			prof := types.TimeProfile{ID: 29, From: types.Date(civilDate(2024, 1, 1)), To: types.Date(civilDate(2024, 12, 31)), Segments: segs}
+			cl := newClient(Cfg{})
+			cl.f.script = Script{Kind: "error"}
+			safeCall(func() string { cl.u.SetTimeProfile(id, prof); return "" })
+			if acc := len(cl.f.calls) == 1; acc != alone {
+				s.Fail(map[string]any{"op": "segment", "start": a, "end": b, "position": pos, "neighbour": ni, "accepted": acc, "accepted_alone": alone},
+					"a segment is accepted in one position / beside one acceptable neighbour and refused in another")
+				return
+			}
+		}
+	}
+}
+
 func c16seg(s *Sink, a, b [2]int, class string) {
 	id := uint32(405419896)
 	segs := types.Segments{1: {Start: types.NewHHmm(a[0], a[1]), End: types.NewHHmm(b[0], b[1])}, 2: {}, 3: {}}
@@ -70,6 +93,10 @@ func c16seg(s *Sink, a, b [2]int, class string) {
 	cl.f.script = Script{Kind: "error"}
 	safeCall(func() string { cl.u.SetTimeProfile(id, prof); return "" })
 	acc := len(cl.f.calls) == 1
+	c16segCount++
+	if c16segCount%4 == 0 && a[0] >= 0 && a[0] <= 24 && b[0] >= 0 && b[0] <= 24 {
+		c16segNeighbours(s, a, b, acc)
+	}
 	s.Add(fmt.Sprintf("CSeg %s %s %v", z2(a[0], a[1]), z2(b[0], b[1]), acc), map[string]any{"op": "segment", "start": a, "end": b, "accepted": acc}, class, true)
 }
 
